@@ -89,7 +89,47 @@ CLAIMED = {
 }
 NOT_APPLICABLE = {}
 
+# clauses added after the first claim text was written (rounds 2 and 3); appended to the level text
+ADDENDA = {
+ "C01": "R01.5: the audit-only region posts AUDIT_* events only.",
+ "C02": "R02.5: the read-modify-write windows of two interchain records never overlap (source == destination pairs).",
+ "C03": "R03.7: the verification groups cover the block; R03.8: no function reachable from CheckProof reads a VerifyPool container that is filled after construction (no memo of ledger data).",
+ "C05": "R05.3 also decides bulk filing: all ids at once only behind the notify-source flag and under the shared source chain.",
+ "C06": "R06.9: a list rewritten element by element in a loop is carried from one iteration to the next (fold coherence).",
+ "C07": "R07.6 (shared with R13.6): no dirty-set entry is removed and storageChange.revert stores the recorded previous value on every path.",
+ "C08": "R08.4 also covers the optional callee: vm.Context.Callee / tx.GetTo() is dereferenced only behind its nil test in every function of the unrecovered path.",
+ "C09": "R09.7: on the chain-store persist path every write goes through the batch that carries the chain meta.",
+ "C10": "R10.6 (shared with R13.6): no dirty-set entry is removed, so journal and state hash see every key the block touched.",
+ "C11": "R11.1 also forbids direct store writes on the persist path.",
+ "C12": "R12.4 also decides the refusal window (exactly minJnlHeight > height, any spelling) and that a root not read from the target journal is stored only for height 0.",
+ "C13": "R13.6: tombstones survive the undo (no Delete on dirtyState; the storage undo stores the recorded value, nil included, on every path).",
+ "C15": "R15.6: electorate snapshot; R15.7: the electorate update reaches every non-final status.",
+ "C16": "R16.7: every verdict of checkTargetAvailability is among the origins of the target error checkIBTP returns.",
+ "C17": "R17.6: index -> record key agreement; R17.7: every role predicate of RoleManager decides on each of its parameters.",
+ "C18": "R18.2 pairs marking and appending both ways.",
+ "C19": "R19.4 requires the commit clamp to be exactly priorityIndex.size(); R19.5: key agreement of the pool indexes.",
+ "C20": "R20.4: the applied index persisted by reportState is the one recorded for the reported height.",
+}
+
+
+def rule_max():
+    import glob, re
+    mx = {}
+    for f in glob.glob(os.path.join(HERE, "checker/rules/*.go")):
+        for m in re.finditer(r'r\.Rule\("R(\d\d)\.(\d+)[a-z]?"', open(f).read()):
+            mx[m.group(1)] = max(mx.get(m.group(1), 0), int(m.group(2)))
+    return mx
+
+
 def main():
+    import re
+    mx = rule_max()
+    for pid in list(CLAIMED):
+        tech, text, note, ref = CLAIMED[pid]
+        text = re.sub(r"R(\d\d)\.1-R\d\d\.\d+", lambda m: f"R{m.group(1)}.1-R{m.group(1)}.{mx.get(m.group(1), 0)}", text)
+        if pid in ADDENDA:
+            text = text.rstrip() + " Added later: " + ADDENDA[pid]
+        CLAIMED[pid] = (tech, text, note, ref)
     props = [json.loads(l)["id"] for l in open(os.path.join(HERE, "properties.jsonl"))]
     na_path = os.path.join(HERE, "tools", "not_applicable.json")
     na = json.load(open(na_path)) if os.path.exists(na_path) else {}
